@@ -85,17 +85,107 @@ Proof.
   exists r. split; [exact A|]. split; [exact B|]. rewrite C, V1, Z.mul_1_r. reflexivity.
 Qed.
 
+(* signed reading, for non-negative exponents *)
+Theorem ipow_signed x y : wf x -> wf y -> 0 <= sval y ->
+  exists r, ipow x y = Ok r /\ wf r /\ uval r = (sval x ^ sval y) mod Wfull.
+Proof.
+  intros Hx Hy Hs. destruct (ipow_correct x y Hx Hy) as (r & A & B & C). exists r. split; [exact A|]. split; [exact B|].
+  rewrite C. pose proof Wfull_pos.
+  assert (Ey : uval y = sval y).
+  { unfold sval in *. pose proof (wf_range y Hy). destruct (uval y <? Wfull / 2); lia. }
+  rewrite Ey. rewrite (sval_mod x Hx). apply pow_mod_base; lia.
+Qed.
+
 (* ---- upowmod ---- *)
-Definition upowmod_exact : Prop := forall x y m, wf x -> wf y -> wf m -> uval m <> 0 ->
-  exists r, upowmod x y m = Ok r /\ wf r /\ uval r = (uval x ^ uval y) mod uval m.
+Lemma testbit_uval x : Forall limb_ok x -> forall i, 0 <= i ->
+  Z.testbit (uval x) i = Z.testbit (nthz x (Z.to_nat (i / BINT_WORDBITS))) (i mod BINT_WORDBITS).
+Proof.
+  pose proof wb_range as Hwb. unfold nthz.
+  induction 1 as [|a r Ha Hr IH]; intros i Hi; cbn [uval].
+  - rewrite Z.testbit_0_l. destruct (Z.to_nat (i / BINT_WORDBITS)); cbn [nth]; rewrite Z.testbit_0_l; reflexivity.
+  - unfold limb_ok, Wd in *. rewrite testbit_cons by lia.
+    pose proof (Z.div_mod i BINT_WORDBITS ltac:(lia)) as D. pose proof (Z.mod_pos_bound i BINT_WORDBITS ltac:(lia)) as M.
+    destruct (i <? BINT_WORDBITS) eqn:E.
+    + rewrite Z.div_small, Z.mod_small by lia. reflexivity.
+    + assert (Hq : 1 <= i / BINT_WORDBITS) by (apply Z.div_le_lower_bound; lia).
+      rewrite IH by lia.
+      replace (i - BINT_WORDBITS) with (i + (-1) * BINT_WORDBITS) by ring. rewrite Z.div_add, Z.mod_add by lia.
+      replace (Z.to_nat (i / BINT_WORDBITS)) with (S (Z.to_nat (i / BINT_WORDBITS + -1))) by lia. reflexivity.
+Qed.
+
+Lemma test_bit_spec b i : wf b -> 0 <= i < BINT_BITS -> test_bit b i = Z.testbit (uval b) i.
+Proof.
+  intros [L F] Hi. unfold test_bit. pose proof wb_range as Hwb. pose proof bits_small as Hbs. change (2 ^ 31) with 2147483648 in Hbs.
+  destruct (count_split i Hi) as (Eq & _). unfold imod_wb. rewrite Eq.
+  rewrite (testbit_uval b F i) by lia.
+  pose proof (Z.mod_pos_bound i BINT_WORDBITS ltac:(lia)) as Hk. set (k := i mod BINT_WORDBITS) in *.
+  set (w := nthz b (Z.to_nat (i / BINT_WORDBITS))).
+  assert (Hw : limb_ok w) by (apply nth_limb_ok; auto).
+  pose proof (limb_i64 w Hw) as Hw64. unfold limb_ok in Hw. clearbody w k.
+  rewrite lshr_nonneg by (auto; lia).
+  assert (E1 : lband (w / 2 ^ k) 1 = (w / 2 ^ k) mod 2) by (apply (lband_ones (w / 2 ^ k) 1); lia). rewrite E1.
+  destruct (Z.testbit w k) eqn:T.
+  - apply Z.testbit_true in T; [|lia]. rewrite T. reflexivity.
+  - apply Z.testbit_false in T; [|lia]. rewrite T. reflexivity.
+Qed.
+
+Lemma uaddmod_spec a b m : wf a -> wf b -> wf m -> uval a < uval m -> uval b < uval m ->
+  wf (uaddmod a b m) /\ uval (uaddmod a b m) = (uval a + uval b) mod uval m.
+Proof.
+  intros Ha Hb Hm La Lb. unfold uaddmod. pose proof (wf_range a Ha). pose proof (wf_range b Hb). pose proof (wf_range m Hm).
+  destruct (sub_correct m b Hm Hb) as (W1 & V1). rewrite Z.mod_small in V1 by lia.
+  rewrite ult_correct, V1 by auto.
+  destruct (uval a <? uval m - uval b) eqn:E.
+  - destruct (add_correct a b Ha Hb) as (W2 & V2). split; [exact W2|]. rewrite V2, Z.mod_small by lia. symmetry. apply Z.mod_small. lia.
+  - destruct (sub_correct a _ Ha W1) as (W2 & V2). split; [exact W2|]. rewrite V2, V1, Z.mod_small by lia.
+    apply Z.mod_unique with 1; lia.
+Qed.
+
+Lemma umulmod_loop_spec a b m : wf a -> wf b -> wf m -> uval a < uval m ->
+  forall n r, Z.of_nat n <= BINT_BITS -> wf r -> uval r = (uval a * (uval b / 2 ^ Z.of_nat n)) mod uval m ->
+  wf (umulmod_loop n a b m r) /\ uval (umulmod_loop n a b m r) = (uval a * uval b) mod uval m.
+Proof.
+  intros Ha Hb Hm La. pose proof (wf_range a Ha). pose proof (wf_range b Hb) as Rb. pose proof (wf_range m Hm).
+  assert (HM : 0 < uval m) by lia.
+  induction n as [|n IH]; intros r Hn Hr Vr; cbn [umulmod_loop].
+  - change (2 ^ Z.of_nat 0) with 1 in Vr. rewrite Z.div_1_r in Vr. auto.
+  - assert (Lr : uval r < uval m) by (rewrite Vr; apply Z.mod_pos_bound; lia).
+    destruct (uaddmod_spec r r m Hr Hr Hm Lr Lr) as (W1 & V1).
+    assert (L1 : uval (uaddmod r r m) < uval m) by (rewrite V1; apply Z.mod_pos_bound; lia).
+    rewrite test_bit_spec by (auto; lia).
+    set (q := uval b / 2 ^ Z.of_nat (S n)) in *.
+    assert (Hp : 0 < 2 ^ Z.of_nat n) by (apply Z.pow_pos_nonneg; lia).
+    assert (Eq : uval b / 2 ^ Z.of_nat n = 2 * q + (if Z.testbit (uval b) (Z.of_nat n) then 1 else 0)).
+    { assert (Eqq : q = uval b / 2 ^ Z.of_nat n / 2).
+      { subst q. rewrite Nat2Z.inj_succ, Z.pow_succ_r by lia. rewrite (Z.mul_comm 2 (2 ^ Z.of_nat n)).
+        symmetry. apply Z.div_div; lia. }
+      rewrite Eqq. set (t := uval b / 2 ^ Z.of_nat n).
+      assert (Tt : Z.testbit (uval b) (Z.of_nat n) = true -> t mod 2 = 1) by (intros T; apply Z.testbit_true in T; [exact T | lia]).
+      assert (Tf : Z.testbit (uval b) (Z.of_nat n) = false -> t mod 2 = 0) by (intros T; apply Z.testbit_false in T; [exact T | lia]).
+      clearbody t. destruct (Z.testbit (uval b) (Z.of_nat n)); [specialize (Tt eq_refl) | specialize (Tf eq_refl)]; lia. }
+    apply IH; [lia | |].
+    + destruct (Z.testbit (uval b) (Z.of_nat n)); [apply uaddmod_spec; auto | exact W1].
+    + rewrite Eq. destruct (Z.testbit (uval b) (Z.of_nat n)).
+      * destruct (uaddmod_spec _ a m W1 Ha Hm L1 La) as (W2 & V2). rewrite V2, V1, Vr.
+        rewrite <- Z.add_mod by lia. rewrite Z.add_mod_idemp_l by lia. f_equal. ring.
+      * rewrite V1, Vr. rewrite <- Z.add_mod by lia. f_equal. ring.
+Qed.
+
+Lemma umulmod_spec a b m : wf a -> wf b -> wf m -> uval a < uval m ->
+  wf (umulmod a b m) /\ uval (umulmod a b m) = (uval a * uval b) mod uval m.
+Proof.
+  intros Ha Hb Hm La. unfold umulmod. pose proof bits_ge64. pose proof (wf_range b Hb) as Rb. pose proof (wf_range a Ha).
+  destruct wf_zero as (Wz & Vz).
+  apply umulmod_loop_spec; auto; [rewrite Z2Nat.id by lia; lia|].
+  rewrite Vz, Z2Nat.id by lia. fold Wfull. rewrite Z.div_small by lia. rewrite Z.mul_0_r, Z.mod_0_l by lia. reflexivity.
+Qed.
 
 Lemma upowmod_loop_spec M fuel : forall x y z m, wf x -> wf y -> wf z -> wf m ->
-  uval m = M -> 2 <= M -> M * M <= Wfull -> uval x < M -> uval z < M ->
+  uval m = M -> 2 <= M -> uval x < M -> uval z < M ->
   uval y < 2 ^ Z.of_nat fuel ->
   exists r, upowmod_loop (S fuel) x y z m = Ok r /\ wf r /\ uval r = (uval x ^ uval y * uval z) mod M.
 Proof.
-  pose proof Wfull_pos as HW.
-  induction fuel as [|f IH]; intros x y z m Hx Hy Hz Hm EM HM2 HMM Hxlt Hzlt Hylt;
+  induction fuel as [|f IH]; intros x y z m Hx Hy Hz Hm EM HM2 Hxlt Hzlt Hylt;
     pose proof (wf_range x Hx) as Rx; pose proof (wf_range y Hy) as Ry; pose proof (wf_range z Hz) as Rz;
     cbn [upowmod_loop]; rewrite (iszero_correct y Hy).
   - change (2 ^ Z.of_nat 0) with 1 in Hylt. assert (E : uval y = 0) by lia. rewrite E. cbn [Z.eqb].
@@ -104,44 +194,40 @@ Proof.
     { apply Z.eqb_eq in E0. rewrite E0. exists z. split; [reflexivity|]. split; [exact Hz|].
       rewrite Z.pow_0_r, Z.mul_1_l. symmetry. apply Z.mod_small. lia. }
     destruct (iseven_correct y Hy) as (_ & ->).
-    (* z' *)
-    assert (Z' : exists z', (if uval y mod 2 =? 1 then umod (bmul z x) m else Ok z) = Ok z' /\ wf z' /\ uval z' < M /\
-                 (uval x ^ uval y * uval z) mod M = ((uval x * uval x) ^ (uval y / 2) * uval z') mod M).
-    { destruct (uval y mod 2 =? 1) eqn:E.
-      - destruct (mul_correct z x Hz Hx) as (A & B). rewrite Z.mod_small in B by nia.
-        destruct (udiv_umod_correct _ m A Hm ltac:(lia)) as (_ & (r & C & D & F)). rewrite EM, B in F.
-        exists r. split; [exact C|]. split; [exact D|]. split; [rewrite F; apply Z.mod_pos_bound; lia|].
-        rewrite F, (pow_half_odd (uval x) (uval y)) by lia. rewrite Z.mul_mod_idemp_r by lia. f_equal. ring.
-      - exists z. split; [reflexivity|]. split; [exact Hz|]. split; [exact Hzlt|].
-        rewrite (pow_half_even (uval x) (uval y)) by lia. reflexivity. }
-    destruct Z' as (z' & -> & Wz' & Hz'lt & EZ).
-    destruct (mul_correct x x Hx Hx) as (A & B). rewrite Z.mod_small in B by nia.
-    destruct (udiv_umod_correct _ m A Hm ltac:(lia)) as (_ & (x' & C & D & F)). rewrite EM, B in F. rewrite C.
+    destruct (umulmod_spec x x m Hx Hx Hm ltac:(lia)) as (Wxx & Vxx). rewrite EM in Vxx.
     destruct (shrone_correct y Hy) as (Wy' & Vy').
-    destruct (IH x' (shrone y) z' m D Wy' Wz' Hm EM HM2 HMM) as (r & R1 & R2 & R3).
-    + rewrite F. apply Z.mod_pos_bound. lia.
+    set (z' := if uval y mod 2 =? 1 then umulmod z x m else z).
+    assert (Z' : wf z' /\ uval z' < M /\
+                 (uval x ^ uval y * uval z) mod M = ((uval x * uval x) ^ (uval y / 2) * uval z') mod M).
+    { subst z'. destruct (uval y mod 2 =? 1) eqn:E.
+      - destruct (umulmod_spec z x m Hz Hx Hm ltac:(lia)) as (A & B). rewrite EM in B.
+        split; [exact A|]. split; [rewrite B; apply Z.mod_pos_bound; lia|].
+        rewrite B, (pow_half_odd (uval x) (uval y)) by lia. rewrite Z.mul_mod_idemp_r by lia. f_equal. ring.
+      - split; [exact Hz|]. split; [exact Hzlt|]. rewrite (pow_half_even (uval x) (uval y)) by lia. reflexivity. }
+    destruct Z' as (Wz' & Hz'lt & EZ). clearbody z'.
+    destruct (IH (umulmod x x m) (shrone y) z' m Wxx Wy' Wz' Hm EM HM2) as (r & R1 & R2 & R3).
+    + rewrite Vxx. apply Z.mod_pos_bound. lia.
     + exact Hz'lt.
     + rewrite Vy'. apply Z.div_lt_upper_bound; [lia|]. rewrite Nat2Z.inj_succ, Z.pow_succ_r in Hylt by lia. lia.
-    + exists r. split; [exact R1|]. split; [exact R2|]. rewrite R3, Vy', EZ, F.
+    + exists r. split; [exact R1|]. split; [exact R2|]. rewrite R3, Vy', EZ, Vxx.
       rewrite Z.mul_mod, pow_mod_base by lia. rewrite <- Z.mul_mod by lia. reflexivity.
 Qed.
 
-(* exact as long as the square of the modulus fits: no product wraps before it is reduced *)
-Theorem upowmod_partial x y m : wf x -> wf y -> wf m ->
+(* exact for every modulus: products are formed modulo m by double-and-add, nothing wraps *)
+Theorem upowmod_correct x y m : wf x -> wf y -> wf m ->
   (uval m = 0 -> upowmod x y m = Err EDivZero) /\
-  (uval m <> 0 -> uval m * uval m <= Wfull ->
-     exists r, upowmod x y m = Ok r /\ wf r /\ uval r = (uval x ^ uval y) mod uval m).
+  (uval m <> 0 -> exists r, upowmod x y m = Ok r /\ wf r /\ uval r = (uval x ^ uval y) mod uval m).
 Proof.
   intros Hx Hy Hm. unfold upowmod. rewrite isone_correct by auto.
   pose proof (wf_range m Hm) as Rm. pose proof (wf_range y Hy) as Ry.
   split.
   - intros E0. rewrite E0. cbn [Z.eqb]. unfold umod. destruct (udivmod_correct x m Hx Hm) as (D0 & _). rewrite D0 by auto. reflexivity.
-  - intros Hne HMM. destruct (uval m =? 1) eqn:E1.
+  - intros Hne. destruct (uval m =? 1) eqn:E1.
     + apply Z.eqb_eq in E1. rewrite E1. destruct wf_zero as (A & B). exists bint_zero.
       split; [reflexivity|]. split; [exact A|]. rewrite B, Z.mod_1_r. reflexivity.
     + destruct (udiv_umod_correct x m Hx Hm Hne) as (_ & (x' & C & D & F)). rewrite C.
       destruct wf_one as (W1 & V1).
-      destruct (upowmod_loop_spec (uval m) (Z.to_nat BINT_BITS) x' y bint_one m D Hy W1 Hm eq_refl ltac:(lia) HMM) as (r & R1 & R2 & R3).
+      destruct (upowmod_loop_spec (uval m) (Z.to_nat BINT_BITS) x' y bint_one m D Hy W1 Hm eq_refl ltac:(lia)) as (r & R1 & R2 & R3).
       * rewrite F. apply Z.mod_pos_bound. lia.
       * lia.
       * pose proof bits_ge64. rewrite Z2Nat.id by lia. exact (proj2 Ry).
@@ -149,23 +235,8 @@ Proof.
         apply pow_mod_base; lia.
 Qed.
 
-(* beyond that the products z*x and x*x wrap at 2^BITS before they are reduced: witness
-   x = 2^(BITS/2), y = 2, m = 2^BITS - 1 (x^2 = 2^BITS = 1 mod m, the code returns 0) *)
-Theorem upowmod_exact_refuted : ~ upowmod_exact.
-Proof.
-  intros H.
-  pose (x := match bshl bint_one (BINT_BITS / 2) with Some v => v | None => bint_zero end).
-  assert (Wx : wf x).
-  { destruct (bshl_small bint_one (BINT_BITS / 2) (proj1 wf_one)) as (r & A & B & _).
-    - pose proof bits_ge64. split; [apply Z.div_pos; lia | apply Z.div_lt_upper_bound; lia].
-    - subst x. rewrite A. exact B. }
-  assert (W2 : wf (frominteger 2)) by (apply frominteger_correct; vm_compute; split; discriminate).
-  destruct (unm_correct bint_one (proj1 wf_one)) as (Wm & _).
-  specialize (H x (frominteger 2) (bunm bint_one) Wx W2 Wm ltac:(vm_compute; discriminate)).
-  destruct H as (r & A & _ & C). vm_compute in A. injection A as <-. vm_compute in C. discriminate.
-Qed.
-
 Example pow_example :
   ipow (frominteger 3) (frominteger 5) = Ok (frominteger 243) /\
-  upowmod (frominteger 3) (frominteger 5) (frominteger 100) = Ok (frominteger 43).
-Proof. split; vm_compute; reflexivity. Qed.
+  upowmod (frominteger 3) (frominteger 5) (frominteger 100) = Ok (frominteger 43) /\
+  upowmod (frominteger 2) (frominteger 3) (bunm bint_one) = Ok (frominteger 8).
+Proof. split; [|split]; vm_compute; reflexivity. Qed.
